@@ -439,9 +439,9 @@ impl Write for OneByteWriter {
 // ---------------------------------------------------------------------------
 // Families
 
-pub const FAMILIES: [&str; 22] = [
+pub const FAMILIES: [&str; 23] = [
     "truncation", "byte-substitution", "u32-field", "chunk-ops", "xml-mutation", "read-script-1", "read-script-2", "write-fault",
-    "attr-all-bytes", "xml-all-strings", "header-variants", "deep-xml", "chunk-splice", "one-byte-io", "chunk-payload-cut", "chunk-payload-delete-byte", "decode-after-failure", "xml-long-text", "bin-long-names", "zstd-size-fields", "write-benign", "count-fields",
+    "attr-all-bytes", "xml-all-strings", "header-variants", "deep-xml", "chunk-splice", "one-byte-io", "chunk-payload-cut", "chunk-payload-delete-byte", "decode-after-failure", "xml-long-text", "bin-long-names", "zstd-size-fields", "write-benign", "count-fields", "deep-binary",
 ];
 
 const SUBST: [u8; 5] = [0x00, 0x01, 0x7f, 0x80, 0xff];
@@ -912,6 +912,7 @@ impl Engine {
             18 => (4 * 2 * LONG_SIZES.len() * LONG_FILLS.len()) as u64,
             19 => (4 * 4 * 2 * ZSTD_SIZES.len()) as u64,
             20 => self.write_targets.iter().map(|t| t.2.min(400) as u64 * 3).sum(),
+            22 => 4,
             21 => self.bin.iter().filter(|&&f| self.corpus.files[f].desc.ends_with("/None")).map(|&f| (count_subsets(count_field_offsets(&self.corpus.files[f].bytes).len()).len() * COUNT_LIES.len()) as u64).sum(),
             _ => 0,
         }
@@ -1157,6 +1158,37 @@ impl Engine {
                     b[j as usize] = SUBST[(vals % 5) as usize];
                 }
                 judge_decode(Kind::Bin, &b, fam, false, out, &replay);
+            }
+            22 => {
+                // a legal, deeply nested *binary* file (written by the real writer, which must cope
+                // as well): Ok or Err, not a dead process
+                let depth = [1000usize, 10_000, 100_000, 300_000][index as usize];
+                let mut dom = rbx_dom_weak::WeakDom::new(rbx_dom_weak::InstanceBuilder::new("DataModel"));
+                let mut parent = dom.root_ref();
+                for _ in 0..depth {
+                    parent = dom.insert(parent, rbx_dom_weak::InstanceBuilder::new("Folder").with_name("d"));
+                }
+                let roots = dom.root().children().to_vec();
+                let written = crate::evidence::guarded(|| {
+                    let mut v = Vec::new();
+                    rbx_binary::to_writer(&mut v, &dom, &roots).map(|_| v).map_err(|e| e.to_string())
+                });
+                out.executions += 2;
+                match written {
+                    Err((site, msg)) => out.violation(format!("c13|rbx_binary::to_writer|panic|{}", crate::evidence::panic_signature(&site, &msg)), format!("nesting depth {}: {} {}", depth, site, msg), &replay),
+                    Ok(Err(_)) => {}
+                    // (counted through the iterator: the harness's own forest digest recurses)
+                    Ok(Ok(bytes)) => match crate::evidence::guarded(|| rbx_binary::from_reader(bytes.as_slice()).map(|d| d.descendants().count()).map_err(|e| e.to_string())) {
+                        Err((site, msg)) => out.violation(format!("c13|rbx_binary::from_reader|panic|{}", crate::evidence::panic_signature(&site, &msg)), format!("nesting depth {}: {} {}", depth, site, msg), &replay),
+                        Ok(Err(e)) => out.violation("c13|rbx_binary::from_reader|deep-binary|rejected".to_owned(), format!("a legal file nested {} deep, written by rbx_binary itself, is rejected: {}", depth, e), &replay),
+                        Ok(Ok(n)) => {
+                            if n != depth + 1 {
+                                out.violation("c13|rbx_binary::from_reader|deep-binary|count".to_owned(), format!("a file nested {} deep decodes to {} instances", depth, n), &replay);
+                            }
+                        }
+                    },
+                }
+                out.outcome("deep-binary");
             }
             11 => {
                 let depth = [1000usize, 5000, 20000, 100000][index as usize];
@@ -1488,7 +1520,7 @@ pub fn check(run: &Run) -> Value {
             {"family": "xml-all-strings", "case": "<a/>"},
         ],
         "exhaustive": res.abandoned.is_empty(),
-        "rule": "fault enumeration around the real decoders/encoders: every strict prefix of every corpus file; every single-byte substitution from a 5-value set and every single-bit flip at every offset; every chunk payload cut at every length and with every single byte deleted, re-framed consistently (uncompressed / LZ4 literals / raw zstd); every u32 window of every binary file set to 7 boundary values; every chunk deleted / duplicated / swapped / spliced from another file; every tag / attribute / text-node mutation of every XML file; every read() script with <=1 (thorough: <=2) deviations {Short(1), Short(half), Interrupted} and the one-byte reader; a failing sink at every output offset (Err and Ok(0)), a one-byte sink, and a sink that once answers with Interrupted / a one-byte short write (output must be complete and identical) or WouldBlock (must fail); all byte strings of length <=3 into Attributes::from_reader; all strings of length <=5 (thorough 6) over a 14-symbol XML alphabet into rbx_xml::from_str; all binary headers differing from a valid one in <=2 bytes over a 5-value alphabet; legal XML nested 1000..100000 deep; runs of 1..65537 bytes of one- to four-byte characters as stray text, CDATA, tag name and attribute value at every tag of every XML file, and as class name / property name / string value of hand-assembled binary files (well-formed, unknown type id, missing payload); hand-made Zstandard frames whose content-size field (absent / 2 / 4 / 8 bytes wide) and chunk header length state the same wrong size (10 sizes up to 2^64-1) for each of four chunk kinds; every subset of 1..3 count fields (header class / instance counts, INST, SSTR, PRNT counts) of every uncompressed corpus file set to the same huge value. A case is one (family, index) pair.",
+        "rule": "fault enumeration around the real decoders/encoders: every strict prefix of every corpus file; every single-byte substitution from a 5-value set and every single-bit flip at every offset; every chunk payload cut at every length and with every single byte deleted, re-framed consistently (uncompressed / LZ4 literals / raw zstd); every u32 window of every binary file set to 7 boundary values; every chunk deleted / duplicated / swapped / spliced from another file; every tag / attribute / text-node mutation of every XML file; every read() script with <=1 (thorough: <=2) deviations {Short(1), Short(half), Interrupted} and the one-byte reader; a failing sink at every output offset (Err and Ok(0)), a one-byte sink, and a sink that once answers with Interrupted / a one-byte short write (output must be complete and identical) or WouldBlock (must fail); all byte strings of length <=3 into Attributes::from_reader; all strings of length <=5 (thorough 6) over a 14-symbol XML alphabet into rbx_xml::from_str; all binary headers differing from a valid one in <=2 bytes over a 5-value alphabet; legal XML nested 1000..100000 deep; legal binary files nested 1000..300000 deep (written and read); runs of 1..65537 bytes of one- to four-byte characters as stray text, CDATA, tag name and attribute value at every tag of every XML file, and as class name / property name / string value of hand-assembled binary files (well-formed, unknown type id, missing payload); hand-made Zstandard frames whose content-size field (absent / 2 / 4 / 8 bytes wide) and chunk header length state the same wrong size (10 sizes up to 2^64-1) for each of four chunk kinds; every subset of 1..3 count fields (header class / instance counts, INST, SSTR, PRNT counts) of every uncompressed corpus file set to the same huge value. A case is one (family, index) pair.",
     })
 }
 
